@@ -133,7 +133,9 @@ func analyzeC04(tr *muxTrace) string {
 func analyzeC05(tr *muxTrace) string {
 	last := map[uint16]int{}
 	for _, s := range tr.steps {
-		if s.kind == opAdd && s.err == nil {
+		if s.kind == opAdd && s.err == nil && s.cfgBefore.find(s.pid) < 0 {
+			// a stream added on a PID that is not in use starts a new counter; a stream that lands on a PID still in use
+			// (automatic assignment colliding with an explicit one) must not disturb the running stream's counter
 			delete(last, s.pid)
 		}
 		if s.kind == opPacket {
